@@ -42,8 +42,11 @@ BOUND = {
     "(AMBER), x 6 force fields (default) and PARSE with input hydrogens; 1 "
     "deviation: every clash probe, omitted atom / truncated side chain, "
     "unknown extra atom, water probe (2.8 A x 14 directions), partner poses "
-    "for one seed-chosen partner; 2 deviations: extra atom + omitted atom; "
-    "nucleic strands x naming x force fields; 14 chain layouts x 4 residue "
+    "for one seed-chosen partner; 2 deviations: extra atom + omitted atom, "
+    "omitted atom pairs, partner pairs on the ideal tetrahedral slots of a "
+    "hydroxyl (two donors: both lone-pair placeholders in use); the torsion "
+    "alphabet and the alias-name block of S3 (see C04); "
+    "nucleic strands x naming x force fields; 18 chain layouts x 4 residue "
     "types x {--clean, --nodebump --noopt} (global conservation oracle)",
     "thorough": "quick + water probes 3.4 A, all 15 partners, water+water, "
     "omitted atom+water, all 3-residue windows of the bundled structures",
